@@ -35,11 +35,17 @@ def cell_any(draw, oriented="lammps"):
     if k == "none":
         return None
     a, b, c = [draw(st.floats(4.0, 15.0)) for _ in range(3)]
+    whole = draw(hperm.integers(0, 7)) == 0
+    if whole:
+        # a cell written in whole Angstroms (typed_structure then sometimes hands it over as ints)
+        a, b, c = float(round(a)), float(round(b)), float(round(c))
     if k == "ortho":
         return [[a, 0, 0], [0, b, 0], [0, 0, c]]
     # tilt factors mostly within half a box length (what LAMMPS itself prefers), now and then a strongly sheared cell
     lim = 0.5 if draw(hperm.integers(0, 4)) else 0.95
     xy, xz, yz = draw(st.floats(-lim, lim)) * a, draw(st.floats(-lim, lim)) * a, draw(st.floats(-lim, lim)) * b
+    if whole:
+        xy, xz, yz = float(round(xy)), float(round(xz)), float(round(yz))
     return [[a, 0, 0], [xy, b, 0], [xz, yz, c]]
 
 
@@ -51,6 +57,8 @@ def typed_structure(draw, min_atoms=1, max_atoms=8, tag_base=0, cell="lammps", t
     spec = M.empty_spec()
     c = draw(cell_any(oriented="any-or-none" if cell == "any-or-none" else "lammps")) if cell != "none" else None
     spec["cell"] = c
+    if c is not None and all(float(x).is_integer() for r in c for x in r):
+        spec["cell_form"] = draw(st.sampled_from(["float", "int-list", "int-array"]))
     ntypes = draw(hperm.integers(1, 4))
     from mofun.atomic_masses import ATOMIC_MASSES
     for t in range(ntypes):
@@ -117,6 +125,7 @@ def spec_stats(spec, stats, prefix=""):
         elif spec[kind + "_coeffs"]:
             mode = "table-no-terms"
         stats.count("%s%s:%s" % (prefix, kind, mode))
+    stats.count("%scell-given-as:%s" % (prefix, spec.get("cell_form", "float") if spec.get("cell") is not None else "none"))
     stats.count("%spair-table:%s" % (prefix, bool(spec["pair_coeffs"])))
     stats.count("%sextra-atom-columns:%s" % (prefix, bool(spec["extra_atom_labels"])))
 
